@@ -12,8 +12,12 @@ def run(ctx):
     sat_common.run_property(ctx, "C02")
     ctx.rule = ("cases = CNF x assumptions x solution_limit x luby_factor x budgets from the families listed in scopes; "
                 "contract: INFEASIBLE only if no model (oracle), a model whenever one exists and budgets are generous, never a model for an unsatisfiable formula, status in {OPTIMAL, INFEASIBLE, MAX_ITER}, every call returns (per-case alarm 6-60 s, far above the observed milliseconds); "
-                "non-trivial = the run made >= 1 decision on a formula with > 1 clause, or returned > 1 model; distinct = different (formula, configuration)")
-    ctx.assumptions += ["oracle: brute force up to 14 variables, z3 above (trusted)",
+                + sat_common.ROUND2_RULE +
+                "non-trivial = the run made >= 1 decision on a formula with > 1 clause, or returned > 1 model; distinct = different (formula or recipe, configuration) / different call sequence")
+    ctx.assumptions += ["oracle: planted witness (checked by direct evaluation) on the size ladder - a formula with a verified model can never be INFEASIBLE; "
+                        "a returned assignment that passes evaluation certifies satisfiability; brute force up to 14 variables, z3 above "
+                        "(trusted; time-limited on the size ladder, an INFEASIBLE claim it cannot decide is not judged and is counted in the scope)",
+                        "MAX_ITER is accepted wherever a conflict / restart budget below the default was passed (long runs are capped at 14000-40000 conflicts)",
                         "bounded: decided only on the enumerated / sampled cases"]
 
 
@@ -24,6 +28,6 @@ def prove(ctx):
 
 def replay(rec):
     use_repo()
-    v, info = sat_common.evaluate(rec["case"], rec["case"].get("timeout_s", 6))
+    v, info = sat_common.replay_case(rec)
     print("replay:", v or "no violation", info)
     return 1 if any(o.startswith("C02") for o, _ in v) else 0
